@@ -28,20 +28,34 @@ type c03outcome struct {
 	hits    int
 }
 
-func c03run(c GCase, memoExpr map[int]bool, memoNT []bool, plain bool) c03outcome {
-	env := gram.NewEnvAt(c.In, c.Before()) // a third of the cases parse a later file of a set
-	gd := gram.NewGuard(env.Base)
+// c03graph is one built parser graph. A graph is normally built once and parsed with many times: half of the cases
+// run their two plain parses on ONE plain graph and their two memoized parses on ONE memoized graph (each parse with a
+// fresh context), the other half builds a fresh graph for every parse.
+type c03graph struct {
+	b   *gram.Built
+	gd  *gram.Guard
+	env *gram.Env
+	out *c03outcome
+}
+
+func c03build(c GCase, memoExpr map[int]bool, memoNT []bool, plain bool) *c03graph {
+	st := &c03graph{gd: gram.NewGuard(0)}
+	gd := st.gd
 	gd.MaxEvents, gd.MaxCalls, gd.MaxList = 80000, 80000, 100
-	out := c03outcome{counts: map[string]int{}}
 	g := *c.G
 	g.Memo = memoNT
 	h := &gram.Hooks{Budget: gd.LeafTick, NoMemo: plain, ShareLeaves: true, UserLeaves: run.Hash(c.G.String())%4 == 1, KeywordLeaves: run.Hash(c.G.String())%4 == 3}
 	if run.Hash(c.G.String())%3 == 0 {
-		// a third of the grammars name every Any/Choice (Name() -> parser.ReturnError): a named alternative that fails
-		// returns 'was expecting <name>' - in the plain and in the memoized build alike
+		// a third of the grammars name every Any/Choice (Name() -> parser.ReturnError) and, every other one of them, every
+		// sequence as well (Sequence.Name): a named parser that fails at its own start returns 'was expecting <name>' -
+		// in the plain and in the memoized build alike, on the first parse and on every later one
+		nameSeqs := run.Hash(c.G.String())%6 == 0
 		h.NameOf = func(e *gram.Expr) string {
 			if e.Op == gram.OpAny || e.Op == gram.OpChoice {
 				return fmt.Sprintf("alt%d", e.ID)
+			}
+			if nameSeqs && gram.IsSeqLike(e.Op) {
+				return fmt.Sprintf("seq%d", e.ID)
 			}
 			return ""
 		}
@@ -60,7 +74,7 @@ func c03run(c GCase, memoExpr map[int]bool, memoNT []bool, plain bool) c03outcom
 		h.UnderMemo = func(e *gram.Expr, p parsley.Parser) parsley.Parser {
 			key := fmt.Sprintf("#%d", e.ID)
 			return parser.Func(func(ctx *parsley.Context, lrc data.IntMap, pos parsley.Pos) (parsley.Node, data.IntSet, parsley.Error) {
-				out.counts[fmt.Sprintf("%s@%d", key, int(pos)-env.Base)]++
+				st.out.counts[fmt.Sprintf("%s@%d", key, int(pos)-st.env.Base)]++
 				return p.Parse(ctx, lrc, pos)
 			})
 		}
@@ -69,13 +83,22 @@ func c03run(c GCase, memoExpr map[int]bool, memoNT []bool, plain bool) c03outcom
 				return p
 			}
 			return parser.Func(func(ctx *parsley.Context, lrc data.IntMap, pos parsley.Pos) (parsley.Node, data.IntSet, parsley.Error) {
-				out.counts[fmt.Sprintf("N%d@%d", nt, int(pos)-env.Base)]++
+				st.out.counts[fmt.Sprintf("N%d@%d", nt, int(pos)-st.env.Base)]++
 				return p.Parse(ctx, lrc, pos)
 			})
 		}
 	}
-	b := gram.Build(&g, h)
-	o := gram.Run(env, b.NTs[c.NT], c.Pos)
+	st.b = gram.Build(&g, h)
+	return st
+}
+
+func (st *c03graph) run(c GCase) c03outcome {
+	st.env = gram.NewEnvAt(c.In, c.Before()) // a third of the cases parse a later file of a set
+	env := st.env
+	st.gd.Reset(env.Base)
+	out := c03outcome{counts: map[string]int{}}
+	st.out = &out
+	o := gram.Run(env, st.b.NTs[c.NT], c.Pos)
 	out.budget, out.panicv, out.calls = o.Budget, o.Panic, o.Calls
 	if o.Bound != nil {
 		out.panicv = o.Bound.String()
@@ -90,6 +113,10 @@ func c03run(c GCase, memoExpr map[int]bool, memoNT []bool, plain bool) c03outcom
 		out.ctxPos = int(ce.Pos()) - env.Base
 	}
 	return out
+}
+
+func c03run(c GCase, memoExpr map[int]bool, memoNT []bool, plain bool) c03outcome {
+	return c03build(c, memoExpr, memoNT, plain).run(c)
 }
 
 func c03case(c GCase, r *rand.Rand, a *run.Acc) {
@@ -129,10 +156,20 @@ func c03case(c GCase, r *rand.Rand, a *run.Acc) {
 		a.Count("skipped:left-recursive", 1)
 		return
 	}
-	p1 := c03run(c, nil, memoNT, true)
-	m1 := c03run(c, memoExpr, memoNT, false)
-	m2 := c03run(c, memoExpr, memoNT, false)
-	p2 := c03run(c, nil, memoNT, true)
+	var p1, m1, m2, p2 c03outcome
+	if run.Hash(c.Key())%2 == 0 {
+		a.Count("cases whose repeated parses use ONE built parser graph (fresh context each)", 1)
+		pg, mg := c03build(c, nil, memoNT, true), c03build(c, memoExpr, memoNT, false)
+		p1 = pg.run(c)
+		m1 = mg.run(c)
+		m2 = mg.run(c)
+		p2 = pg.run(c)
+	} else {
+		p1 = c03run(c, nil, memoNT, true)
+		m1 = c03run(c, memoExpr, memoNT, false)
+		m2 = c03run(c, memoExpr, memoNT, false)
+		p2 = c03run(c, nil, memoNT, true)
+	}
 	if p1.budget != "" || m1.budget != "" || m2.budget != "" || p2.budget != "" {
 		a.Count("inconclusive:budget", 1)
 		return
